@@ -104,7 +104,9 @@ func ZZ_C12_RemovalHistory() {
 	r, err := zzOpenReplica()
 	zzAssume(err == nil)
 	r.mode = types.RW
-	names := []string{"s0", "s1", "s2", "s3", "s4", "s5"}
+	// (s1 and s1.img: one disk name is a prefix of the other's, as with "daily" and a
+	// snapshot somebody named "daily.img")
+	names := []string{"s0", "s1", "s1.img", "s3", "s4", "s5"}
 	for i := 0; i < n; i++ {
 		// writes happened between the snapshots: each records a different revision count
 		zzAssume(r.SetRevisionCounter(int64(10*(i+1))) == nil)
